@@ -298,9 +298,6 @@ func (c02) Run(raw json.RawMessage) Result {
 		return Result{Obs: o, Coq: coq, Nontrivial: nvalid > 1 || len(c.Sets) > 1, Class: "free"}
 	}
 	o := strmRunCtl(c.strmCtlCase)
-	if o.Hang {
-		o.Steps = nil
-	}
 	coq := coqlit.App("Ctl", fmt.Sprint(c.Max), strmProgsCoq(c.Progs), strmSchedCoq(c.Sched), o.coq())
 	// non-trivial: interleaved inside a call, or at least two SetDataType / GetDataType steps from different threads
 	type brief struct {
